@@ -47,8 +47,10 @@ def check(ctx):
     tick_for = None
     for n, c in pops:
         f = _enclosing_for(n.ast, fn)
-        if f is not None and any(isinstance(x, ast.Attribute) and x.attr == "desire" for x in ast.walk(f)):
-            tick_for = f
+        if f is not None and tick_for is None and any(
+                isinstance(x, ast.Call) and isinstance(x.func, ast.Attribute) and x.func.attr == "send" and
+                any(isinstance(a, ast.Attribute) and a.attr == "desire" for a in x.args) for x in ast.walk(f)):
+            tick_for = f         # the loop that sends each tasker its desired control
     if tick_for is None:
         alt = [n for n in ast.walk(fn) if isinstance(n, ast.For) and any(
             isinstance(x, ast.Attribute) and x.attr == "desire" for x in ast.walk(n))]
